@@ -1307,6 +1307,9 @@ func (S *sidesInfo) MixedCalls() []*ssa.Call {
 			if !ok || callee == nil || !S.slice[callee] || !S.poly[callee] {
 				continue
 			}
+			if _, _, _, isEq := S.eqHelper(callee); isEq {
+				continue // a comparison of its arguments: not a sink
+			}
 			j := sdNone
 			for _, a := range S.callArgs(ci) {
 				if a.ref == nil {
@@ -1521,4 +1524,90 @@ func (S *sidesInfo) LinkDeliveries() (out []sdDelivery, unresolved []ssa.CallIns
 		}
 	}
 	return
+}
+
+// sdEqCmp is a comparison of two values for (in)equality: a == / != instruction,
+// or a call of a private predicate helper all of whose returns are such a
+// comparison of two of its parameters (`func sameLink(a, b) bool { return a == b }`)
+// — then X, Y are the arguments and Eq is read off the helper.
+type sdEqCmp struct {
+	X, Y   ssa.Value
+	Eq     bool            // a true result means X == Y
+	Val    ssa.Value       // the boolean result
+	At     ssa.Instruction // the comparison / the call
+	Helper *ssa.Function   // nil for a plain comparison
+}
+
+type sdEqHelperInfo struct {
+	i, j int
+	eq   bool
+	ok   bool
+}
+
+var sdEqHelperCache = map[*ssa.Function]sdEqHelperInfo{}
+
+// eqHelper: fn is a private function of the repository with one boolean result
+// whose every return is the comparison (possibly negated) of the same two parameters.
+func (S *sidesInfo) eqHelper(fn *ssa.Function) (i, j int, eq bool, ok bool) {
+	if fn == nil {
+		return 0, 0, false, false
+	}
+	if h, seen := sdEqHelperCache[fn]; seen {
+		return h.i, h.j, h.eq, h.ok
+	}
+	res := sdEqHelperInfo{}
+	defer func() { sdEqHelperCache[fn] = res }()
+	if !isOwn(S.P, fn) || fn.Object() == nil || fn.Object().Exported() || fn.Signature.Results().Len() != 1 || !sdIsBool(fn.Signature.Results().At(0).Type()) {
+		return 0, 0, false, false
+	}
+	rets := ir.Returns(fn)
+	if len(rets) == 0 {
+		return 0, 0, false, false
+	}
+	first := true
+	for _, r := range rets {
+		v, neg := r.Results[0], false
+		for {
+			u, isU := v.(*ssa.UnOp)
+			if !isU || u.Op != token.NOT {
+				break
+			}
+			v, neg = u.X, !neg
+		}
+		bin, isB := v.(*ssa.BinOp)
+		if !isB || (bin.Op != token.EQL && bin.Op != token.NEQ) {
+			return 0, 0, false, false
+		}
+		pi, pj := sdParamIndex(fn, bin.X), sdParamIndex(fn, bin.Y)
+		if pi < 0 || pj < 0 || pi == pj {
+			return 0, 0, false, false
+		}
+		e := (bin.Op == token.EQL) != neg
+		if pi > pj {
+			pi, pj = pj, pi
+		}
+		if first {
+			res.i, res.j, res.eq, first = pi, pj, e, false
+		} else if res.i != pi || res.j != pj || res.eq != e {
+			return 0, 0, false, false
+		}
+	}
+	res.ok = true
+	return res.i, res.j, res.eq, true
+}
+
+// eqCompare decodes an instruction as a comparison for (in)equality.
+func (S *sidesInfo) eqCompare(ins ssa.Instruction) (sdEqCmp, bool) {
+	switch x := ins.(type) {
+	case *ssa.BinOp:
+		if x.Op == token.EQL || x.Op == token.NEQ {
+			return sdEqCmp{X: x.X, Y: x.Y, Eq: x.Op == token.EQL, Val: x, At: x}, true
+		}
+	case *ssa.Call:
+		callee := ir.Callee(x.Common())
+		if i, j, eq, ok := S.eqHelper(callee); ok && j < len(x.Call.Args) {
+			return sdEqCmp{X: x.Call.Args[i], Y: x.Call.Args[j], Eq: eq, Val: x, At: x, Helper: callee}, true
+		}
+	}
+	return sdEqCmp{}, false
 }
